@@ -158,13 +158,13 @@ func c11F6bWitness() c11Case {
 
 func init() {
 	register("C11", func(r *Result, rng *rand.Rand, tier string) {
-		worlds := 450
+		worlds := 560
 		if tier == "thorough" {
-			worlds = 9000
+			worlds = 11000
 		} else if tier == "search" {
 			worlds = 1500
 		}
-		fams := []string{"S", "C", "U", "S", "C"}
+		fams := []string{"S", "C", "R", "U", "S", "R", "C"}
 		c11JudgeWorld(r, c11F6bWitness(), true) // dedicated probe of the listed finding F6b
 		for i := 0; i < worlds && !expired(); i++ {
 			f := c11Families[fams[i%len(fams)]]
